@@ -58,7 +58,7 @@ CLAIMED = {
          'DESIGN.md section 5 C18'),
  'C16': ('Machine-checked theorems (Lean 4) about an executable model of generalGenerateTree/findPathGeneral in which every external answer (sample generator, distance, collision detector, nearest-neighbour index) '
          'is an arbitrary oracle trace: for every trace the tree is rooted, each node\'s parent is an earlier node (acyclic, reaches the root), cost = parent cost + recorded distance, the chosen parent is the cheapest among the first '
-         'nearest and the collision-free candidates examined, its link is collision-free, the accepted sample was within [min,max] of its then-nearest node, node count = iterations+1, the parent walk gives a root-to-node chain, and the cost stored on a node is the sum of the recorded link distances along that walk (costs compared by choose-parent are path lengths; with non-negative distances they are non-negative and never below the parent's). '
+         'nearest and the collision-free candidates examined, its link is collision-free, the accepted sample was within [min,max] of its then-nearest node, node count = iterations+1, the parent walk gives a root-to-node chain, and the cost stored on a node is the sum of the recorded link distances along that walk (costs compared by choose-parent are path lengths; with non-negative distances they are non-negative and never below the cost of the parent). '
          'Tied by replaying the recorded trace of real planner runs through the model node by node; invariants recomputed on the real tree with a brute-force neighbour search.',
          'Trusted: Lean kernel, Mathlib, the recording wrappers; rtree/pickle behaviour and termination of the rejection loop are outside the model.',
          'Lean 4 invariant proofs over an oracle-trace state machine + trace-replay correspondence with the real planner',
